@@ -11,6 +11,7 @@ C07 driver.  Ops:
   conv <chainIdNat> <payload> {oracle}*
         -> err-decode | err-sender | <source> <target> <nonce> <chainId> <data> <hash> <extraData>
   ser  (same tx fields as vt without cfg)            -> hex of the hashed byte string
+  addr <pub65> {oracle}*                             -> hex of PublicKey.GetAddress().GetHexString()
 
 oracle tokens:  sha=<pre>,<digest>   kec=<pre>,<digest>
                 rec=<msg>,<r>,<s>,<recid 0..3>,<pub65|err>      curve-level recovery, 1 ≤ r,s < N
@@ -161,6 +162,17 @@ def doConv (toks : List String) : String :=
     | _, _, _ => "bad-op"
   | _ => "bad-op"
 
+def doAddr (toks : List String) : String :=
+  match toks with
+  | pk :: rest =>
+    match ofHex? pk, parseOracles rest with
+    | some pk, some t =>
+      if pk.length ≠ 65 then "bad-op"
+      else if !t.has (.kec (getIDInput pk)) then "oracle-miss " ++ queryName (.kec (getIDInput pk))
+      else toHex (nativeAddrStr t.crypto pk)
+    | _, _ => "bad-op"
+  | _ => "bad-op"
+
 def doSer (toks : List String) : String :=
   match parseTx toks with
   | some tx => toHex (ser tx)
@@ -171,6 +183,7 @@ def step (_ : Unit) (line : String) : Unit × String :=
   | "vt" :: rest => ((), doVt rest)
   | "conv" :: rest => ((), doConv rest)
   | "ser" :: rest => ((), doSer rest)
+  | "addr" :: rest => ((), doAddr rest)
   | _ => ((), "bad-op")
 
 def run : IO Unit := runLines () step
